@@ -155,7 +155,17 @@ func (e *Engine) qeCallback(q *QEInfo, qr res.QueryRequest) {
 		script = s.Op.Script
 	}
 	for _, a := range script {
+		if strings.HasPrefix(a, "ev:") {
+			// an event sent on the query request is an event of the resource:
+			// applied, published, announced to the listeners
+			qr.Event(a[3:], map[string]interface{}{"n": sid})
+			continue
+		}
 		switch a {
+		case "create":
+			qr.CreateEvent(map[string]interface{}{"c": sid})
+		case "delete":
+			qr.DeleteEvent()
 		case "y":
 			e.Sim.Yield("handler", "qreq")
 		case "model":
